@@ -23,6 +23,7 @@ RULE = ('Generated (rows): tie-heavy binary32 distance rows (values from a 2..5 
         'bit-exact distance and matched taxon = first lineage taxon with threshold >= d; first entry is classifier_result.closest_match; '
         'CSV closest.description == JSON closest_genomes[0]; identical across configurations. Non-trivial: a tie inside the first N+1 '
         'positions; distinct by case hash.')
+RULE += ' Further: the minimum distance occurring only at positions >= 257; worlds sharing their file with a second genome set; JSON / CSV exports of every world result parsed and each entry checked.'
 ASSUMPTIONS = ['CPU dispatch is varied through NumPy\'s NPY_DISABLE_CPU_FEATURES on the CPU of this sandbox only']
 DEADLINE_S = {'quick': 240, 'thorough': 2400}
 CPU_CONFIGS = [None, 'AVX512F AVX512CD AVX512_SKX AVX512_CLX AVX512_CNL AVX512_ICL AVX512_SPR',
